@@ -263,6 +263,16 @@ pub(crate) fn text_macro_identifier_exact(s: Span) -> IResult<Span, TextMacroIde
     Ok((s, TextMacroIdentifier { nodes: (a,) }))
 }
 
+/// A macro name operand of `ifdef / `ifndef / `elsif / `undef: like a macro usage it may spell
+/// any word except a compiler directive name (IEEE 1800-2017 22.5.1), SystemVerilog keywords included.
+#[tracable_parser]
+pub(crate) fn text_macro_identifier_operand(s: Span) -> IResult<Span, TextMacroIdentifier> {
+    begin_keywords("directive");
+    let ret = text_macro_identifier(s);
+    end_keywords();
+    ret
+}
+
 #[tracable_parser]
 #[packrat_parser]
 pub(crate) fn macro_text(s: Span) -> IResult<Span, MacroText> {
@@ -428,7 +438,7 @@ pub(crate) fn define_argument_brace(s: Span) -> IResult<Span, Span> {
 pub(crate) fn undefine_compiler_directive(s: Span) -> IResult<Span, UndefineCompilerDirective> {
     let (s, a) = symbol("`")(s)?;
     let (s, b) = keyword("undef")(s)?;
-    let (s, c) = text_macro_identifier(s)?;
+    let (s, c) = text_macro_identifier_operand(s)?;
     Ok((s, UndefineCompilerDirective { nodes: (a, b, c) }))
 }
 
@@ -462,12 +472,12 @@ pub(crate) fn conditional_compiler_directive(
 pub(crate) fn ifdef_directive(s: Span) -> IResult<Span, IfdefDirective> {
     let (s, a) = symbol("`")(s)?;
     let (s, b) = keyword("ifdef")(s)?;
-    let (s, c) = text_macro_identifier(s)?;
+    let (s, c) = text_macro_identifier_operand(s)?;
     let (s, d) = ifdef_group_of_lines(s)?;
     let (s, e) = many0(tuple((
         symbol("`"),
         keyword("elsif"),
-        text_macro_identifier,
+        text_macro_identifier_operand,
         elsif_group_of_lines,
     )))(s)?;
     let (s, f) = opt(tuple((symbol("`"), keyword("else"), else_group_of_lines)))(s)?;
@@ -486,12 +496,12 @@ pub(crate) fn ifdef_directive(s: Span) -> IResult<Span, IfdefDirective> {
 pub(crate) fn ifndef_directive(s: Span) -> IResult<Span, IfndefDirective> {
     let (s, a) = symbol("`")(s)?;
     let (s, b) = keyword("ifndef")(s)?;
-    let (s, c) = text_macro_identifier(s)?;
+    let (s, c) = text_macro_identifier_operand(s)?;
     let (s, d) = ifndef_group_of_lines(s)?;
     let (s, e) = many0(tuple((
         symbol("`"),
         keyword("elsif"),
-        text_macro_identifier,
+        text_macro_identifier_operand,
         elsif_group_of_lines,
     )))(s)?;
     let (s, f) = opt(tuple((symbol("`"), keyword("else"), else_group_of_lines)))(s)?;
